@@ -35,9 +35,11 @@ def workdir(*parts, clean=True):
 
 
 def mangle(name):
-    """dora symbol mangling of a top level function of the program package (only [a-z0-9_]
-    names are generated; `_` is escaped as _5F)"""
-    return "dora_" + name.replace("_", "_5F")
+    """linker symbol of a top level function of the program package.  Generated names use
+    [a-z0-9] only, so no escaping rule of dora-symbol is involved"""
+    if not re.match(r"^[a-z][a-z0-9]*$", name):
+        raise Inconclusive("kernel names must be [a-z0-9]+: " + name)
+    return "dora_" + name
 
 
 class Program:
